@@ -1552,6 +1552,7 @@ func Run(r *common.Run) error {
 
 	// ---- several sessions on one feature value ----
 	genConcurrent(r, rnd)
+	genConcMixed(r, rnd)
 	if r.Race() {
 		return nil
 	}
@@ -2154,7 +2155,7 @@ func replayLine(r *common.Run, l string) error {
 		return out, nil
 	}
 	switch {
-	case f[0] == "concs" || f[0] == "concc":
+	case f[0] == "concs" || f[0] == "concc" || f[0] == "concm":
 		return replayConc(r, f)
 	case f[0] == "clie" && len(f) == 7:
 		st, err := steps(f[5])
